@@ -30,6 +30,8 @@ def labels_of(ev):
         return MGR_LABEL.get(ev['cmd'], ['C12'])
     if e == 'Rotate':
         return ['C14']
+    if e in ('TrackerPeers', 'Settle'):
+        return ['C19', 'C02', 'C01']
     if e == 'Connect':
         return ['C08', 'C12']
     if e == 'Disk':
@@ -313,7 +315,7 @@ DESIGN_CFG = {
                  Fuel=3, ConnFuel=1, TickFuel=0, MaxQ=1, HS0='TRUE', BFMenu='{{1, 2}, {1}}', Own0='{}', Bugs='{}'),
 }
 ALL_INV = ('TypeOK OwnedImpliesStored NoCacheWhileChoked RxShape AnnouncedInOrder DeferredWhileChoked ReservedBacked '
-           'AskOnlyAdvertisedAndLacked NoPanic PickSound SlotBound ViewAgreement KaBound')
+           'AskOnlyAdvertisedAndLacked NoPanic PickSound SlotBound ViewAgreement KaBound ExtractOnlyComplete')
 ALL_PROP = 'HaveStable RotationPolicy C01Step C08Step C09Step C10Step'
 
 
